@@ -92,6 +92,13 @@ def run(tier, seed):
                 res.count("shape-sweep/" + meth)
                 if len(x) != n or len(w) != n or abs(float(np.sum(w)) - (b - a)) > 1e-11 * (b - a) * max(1.0, n / 20.0) or float(np.min(x)) < a - 1e-12 * max(1.0, abs(a)) or float(np.max(x)) > b + 1e-12 * max(1.0, abs(b)):
                     bad.append(dict(method=meth, n=n, a=a, b=b, failed=["the rule has exactly n nodes inside [a,b] and n weights summing to b-a (n=%d on [%g,%g]: %d nodes in [%r,%r], %d weights summing to %r)" % (n, a, b, len(x), float(np.min(x)), float(np.max(x)), len(w), float(np.sum(w)))])); break
+    # ---- every documented alias selects the same rule as the canonical name
+    for alias, canon in [("mp", "midpoint"), ("clenshaw-curtis", "cc"), ("gauss-legendre", "gl")]:
+        for n in (3, 4, 7):
+            xa, wa = quadrature(n, -0.5, 2.0, method=alias); xc, wc = quadrature(n, -0.5, 2.0, method=canon)
+            res.count("alias/" + alias)
+            if not (np.array_equal(xa, xc) and np.array_equal(wa, wc)):
+                bad.append(dict(method=alias, n=n, a=-0.5, b=2.0, failed=["the method name %r selects the %s rule (nodes %r instead of %r)" % (alias, canon, list(xa), list(xc))])); break
     # simpson must reject even n
     try:
         quadrature(4, 0.0, 1.0, method="simpson")
